@@ -399,7 +399,7 @@ template <bool OWNED, class H> std::string run_multi(const std::string& sc, H& h
 }
 template <std::size_t N = 0, class F> std::string by_size(std::size_t n, F f)
 {
-    if constexpr (N > 6) return "BADCASE";
+    if constexpr (N > 4) return "BADCASE";   // arrays of up to 4 elements in the multi-container scenarios
     else
     {
         if (n == N) return f(std::integral_constant<std::size_t, N>{});
